@@ -28,12 +28,16 @@ pub enum Imp {
   Static(String),
   /// await import("<text>")
   Dynamic(String),
+  /// import t from "<text>" with { type: "text" }   (C13 shortcut slice only)
+  Text(String),
+  /// import j from "<text>" with { type: "json" }   (C13 shortcut slice only)
+  JsonAttr(String),
 }
 
 impl Imp {
   pub fn text(&self) -> &str {
     match self {
-      Imp::Static(t) | Imp::Dynamic(t) => t,
+      Imp::Static(t) | Imp::Dynamic(t) | Imp::Text(t) | Imp::JsonAttr(t) => t,
     }
   }
 }
@@ -100,10 +104,22 @@ pub fn render_imports(imports: &[Imp]) -> String {
     match imp {
       Imp::Static(t) => s.push_str(&format!("import * as i{} from \"{}\";\n", i, t)),
       Imp::Dynamic(t) => s.push_str(&format!("const d{} = await import(\"{}\");\n", i, t)),
+      Imp::Text(t) => s.push_str(&format!("import t{} from \"{}\" with {{ type: \"text\" }};\n", i, t)),
+      Imp::JsonAttr(t) => s.push_str(&format!("import j{} from \"{}\" with {{ type: \"json\" }};\n", i, t)),
     }
   }
   s.push_str("export const value: number = 1;\n");
   s
+}
+
+/// bytes served for a package file: source text, or a WebAssembly binary
+/// whose import section names the file's imports
+pub fn file_bytes(f: &RFile) -> Vec<u8> {
+  if f.path.ends_with(".wasm") {
+    crate::r#gen::render_wasm(&f.imports.iter().map(|i| i.text().to_string()).collect::<Vec<_>>())
+  } else {
+    render_imports(&f.imports).into_bytes()
+  }
 }
 
 pub fn pkg_file_url(name: &str, version: &str, path: &str) -> String {
@@ -113,10 +129,10 @@ pub fn pkg_file_url(name: &str, version: &str, path: &str) -> String {
 pub fn version_meta_json(name: &str, v: &RVer) -> Value {
   let mut manifest = serde_json::Map::new();
   for f in &v.files {
-    let body = render_imports(&f.imports);
+    let body = file_bytes(f);
     manifest.insert(
       f.path.clone(),
-      json!({"size": body.len(), "checksum": format!("sha256-{}", sha256_hex(body.as_bytes()))}),
+      json!({"size": body.len(), "checksum": format!("sha256-{}", sha256_hex(&body))}),
     );
   }
   let mut o = serde_json::Map::new();
@@ -205,9 +221,9 @@ impl RegWorld {
           );
         }
         for f in &v.files {
-          w.add_text(
+          w.add(
             &pkg_file_url(&p.name, &v.version, &f.path),
-            &render_imports(&f.imports),
+            Resp::Module { headers: vec![], content: file_bytes(f), final_spec: None },
           );
         }
       }
